@@ -14,8 +14,13 @@ def _ret_expr(run, f):
     fi = FuncInfo.of(f)
     rets = own_returns(f.node)
     body = body_nodoc(f.node)
-    if len(rets) == 1 and isinstance(body[-1], ast.Return):
+    if len(rets) == 1 and isinstance(body[-1], ast.Return) and len(body) == 1:
         return fi, canon(fi, rets[0].value)
+    # early-exit chains, named intermediate results: fold the body into the one expression it computes
+    from ..boolfold import predicate_expr
+    e = predicate_expr(f.node)
+    if e is not None:
+        return fi, canon(fi, e)
     return fi, None
 
 
